@@ -119,6 +119,20 @@ type WithMetaV struct {
 	Inner
 }
 
+// RecV recurses through an omitempty pointer and is used by value in Holder before a plain pointer to
+// it: the pointer in Holder closes no cycle.
+type RecV struct {
+	Kids []RecV `json:"a_kids"`
+	Next *RecV  `json:"b_next,omitempty"`
+	V    int16  `json:"v"`
+}
+type Holder struct {
+	First RecV            `json:"a"`
+	List  []RecV          `json:"l"`
+	Later *RecV           `json:"z"`
+	M     map[string]RecV `json:"m,omitempty"`
+}
+
 // fixedValues: values of the types reflection cannot fill (unexported embedded fields)
 var fixedValues = map[reflect.Type][]any{
 	reflect.TypeOf(WithMeta{}): {WithMeta{meta: &meta{ID: 7, Note: "n"}, Inner: Inner{Deeper{ID: "deep", Z: true}}, K: 3}, WithMeta{meta: &meta{}, K: 255},
@@ -127,7 +141,7 @@ var fixedValues = map[reflect.Type][]any{
 }
 
 var named = map[string]reflect.Type{
-	"WithMeta": reflect.TypeOf(WithMeta{}), "WithMetaV": reflect.TypeOf(WithMetaV{}),
+	"WithMeta": reflect.TypeOf(WithMeta{}), "WithMetaV": reflect.TypeOf(WithMetaV{}), "RecV": reflect.TypeOf(RecV{}), "Holder": reflect.TypeOf(Holder{}),
 	"PP": reflect.TypeOf(PP{}), "Levels": reflect.TypeOf(Levels{}), "EmbT": reflect.TypeOf(EmbT{}), "EmbU": reflect.TypeOf(EmbU{}),
 	"EmbA": reflect.TypeOf(EmbA{}), "EmbB": reflect.TypeOf(EmbB{}), "Node": reflect.TypeOf(Node{}), "MutA": reflect.TypeOf(MutA{}), "MutB": reflect.TypeOf(MutB{}), "Tree": reflect.TypeOf(Tree{}),
 }
@@ -270,6 +284,12 @@ func check(c Case) (o h.Outcome) {
 				for name, cs := range doc.Components.Schemas {
 					if name != "Root__" && cs.Value == se.Schema {
 						cls = "nil-pointer-to-component-ref"
+						// the open finding is about the pointers that close a type cycle (and, with
+						// CreateComponentSchemas, every pointer to a named struct): a pointer held by a
+						// struct that is not part of any cycle is a different matter
+						if !strings.HasPrefix(c.Opts, "components") && !ownerInCycle(t, se.JSONPointer()) {
+							cls = "nil-pointer-to-component-ref:holder-outside-the-cycle"
+						}
 					}
 				}
 			}
@@ -278,6 +298,85 @@ func check(c Case) (o h.Outcome) {
 		}
 	}
 	return
+}
+
+// ownerInCycle walks the Go type along a JSON pointer and reports whether the struct that holds the
+// last member named by the pointer can reach its own type again (is part of a type cycle). Unknown
+// shapes count as "in a cycle", which keeps the attribution to the open finding.
+func ownerInCycle(t reflect.Type, ptr []string) bool {
+	var owner reflect.Type
+	for _, tok := range ptr {
+		for t.Kind() == reflect.Ptr {
+			t = t.Elem()
+		}
+		switch t.Kind() {
+		case reflect.Slice, reflect.Array, reflect.Map:
+			t = t.Elem()
+		case reflect.Struct:
+			ft, ok := jsonField(t, tok)
+			if !ok {
+				return true
+			}
+			owner, t = t, ft
+		default:
+			return true
+		}
+	}
+	if owner == nil {
+		return true
+	}
+	return reaches(owner, owner, map[reflect.Type]bool{})
+}
+
+// jsonField finds the field encoding/json writes under name (own fields first, then embedded structs).
+func jsonField(t reflect.Type, name string) (reflect.Type, bool) {
+	var embedded []reflect.Type
+	for i := 0; i < t.NumField(); i++ {
+		f := t.Field(i)
+		tag := strings.Split(f.Tag.Get("json"), ",")[0]
+		if f.Anonymous && tag == "" {
+			et := f.Type
+			for et.Kind() == reflect.Ptr {
+				et = et.Elem()
+			}
+			if et.Kind() == reflect.Struct {
+				embedded = append(embedded, et)
+				continue
+			}
+		}
+		if tag == "-" {
+			continue
+		}
+		if tag == name || (tag == "" && f.Name == name) {
+			return f.Type, true
+		}
+	}
+	for _, et := range embedded {
+		if ft, ok := jsonField(et, name); ok {
+			return ft, true
+		}
+	}
+	return nil, false
+}
+
+func reaches(from, target reflect.Type, seen map[reflect.Type]bool) bool {
+	for from.Kind() == reflect.Ptr || from.Kind() == reflect.Slice || from.Kind() == reflect.Array || from.Kind() == reflect.Map {
+		from = from.Elem()
+	}
+	if from.Kind() != reflect.Struct || seen[from] {
+		return false
+	}
+	seen[from] = true
+	for i := 0; i < from.NumField(); i++ {
+		ft := from.Field(i).Type
+		for ft.Kind() == reflect.Ptr || ft.Kind() == reflect.Slice || ft.Kind() == reflect.Array || ft.Kind() == reflect.Map {
+			ft = ft.Elem()
+		}
+		if ft == target || reaches(ft, target, seen) {
+			return true
+		}
+	}
+	return false
 }
 
 func kindClass(c Case) string {
@@ -340,7 +439,7 @@ func (g *gctx) typ(depth int, inContainer bool) *TD {
 		}
 		return &TD{K: k}
 	case 4:
-		n := rapid.SampledFrom([]string{"Node", "MutA", "Tree", "EmbA", "PP", "Levels", "WithMeta", "WithMetaV"}).Draw(g.t, "named")
+		n := rapid.SampledFrom([]string{"Node", "MutA", "Tree", "EmbA", "PP", "Levels", "WithMeta", "WithMetaV", "Holder", "Holder", "RecV"}).Draw(g.t, "named")
 		if strings.HasPrefix(n, "WithMeta") {
 			g.feats["embedded-unexported"] = true
 		} else if n != "EmbA" {
